@@ -118,8 +118,28 @@ pub fn check_views(step: usize, g: &G, m: &Model, in_sync: bool, case: &Case, cx
     }
 
     // ---- pairs ------------------------------------------------------------------------------
-    for a in &universe {
-        for b in &universe {
+    // every ordered pair of the universe; for universes of more than 80 names a seeded sample of 600 pairs:
+    // both orientations of stored edges, and random pairs
+    let pairs: Vec<(String, String)> = if universe.len() <= 80 {
+        universe.iter().flat_map(|a| universe.iter().map(move |b| (a.clone(), b.clone()))).collect()
+    } else {
+        let mut pr = crate::core::rng::Rng::new(case.seed ^ (step as u64).wrapping_mul(0x9E37_79B9_7F4A_7C15), "c02.pairs");
+        let mut v: Vec<(String, String)> = vec![];
+        for _ in 0..300 {
+            if m.edges.is_empty() {
+                break;
+            }
+            let e = pr.pick(&m.edges);
+            v.push(if pr.chance(1, 2) { (e.u.clone(), e.v.clone()) } else { (e.v.clone(), e.u.clone()) });
+        }
+        for _ in 0..300 {
+            v.push((pr.pick(&universe).clone(), pr.pick(&universe).clone()));
+        }
+        c.cx.count("probe.pairs_sampled_on_a_large_universe");
+        v
+    };
+    for (a, b) in &pairs {
+        {
             let both = has(a) && has(b);
             let joining: Vec<&ME> = m.edges.iter().filter(|e| m.joins(e, a, b)).collect();
             if !s.multi {
@@ -183,30 +203,19 @@ pub fn check_views(step: usize, g: &G, m: &Model, in_sync: bool, case: &Case, cx
     }
 
     // ---- per node ---------------------------------------------------------------------------
-    let succ_of = |x: &str| -> Vec<String> {
-        let mut v: BTreeSet<String> = BTreeSet::new();
-        for e in &m.edges {
-            if e.u == x {
-                v.insert(e.v.clone());
-            }
-            if !directed && e.v == x {
-                v.insert(e.u.clone());
-            }
+    // successor / predecessor sets by name, computed once per step
+    let mut succ_map: std::collections::BTreeMap<&str, BTreeSet<String>> = std::collections::BTreeMap::new();
+    let mut pred_map: std::collections::BTreeMap<&str, BTreeSet<String>> = std::collections::BTreeMap::new();
+    for e in &m.edges {
+        succ_map.entry(e.u.as_str()).or_default().insert(e.v.clone());
+        pred_map.entry(e.v.as_str()).or_default().insert(e.u.clone());
+        if !directed {
+            succ_map.entry(e.v.as_str()).or_default().insert(e.u.clone());
+            pred_map.entry(e.u.as_str()).or_default().insert(e.v.clone());
         }
-        v.into_iter().collect()
-    };
-    let pred_of = |x: &str| -> Vec<String> {
-        let mut v: BTreeSet<String> = BTreeSet::new();
-        for e in &m.edges {
-            if e.v == x {
-                v.insert(e.u.clone());
-            }
-            if !directed && e.u == x {
-                v.insert(e.v.clone());
-            }
-        }
-        v.into_iter().collect()
-    };
+    }
+    let succ_of = |x: &str| -> Vec<String> { succ_map.get(x).map(|s| s.iter().cloned().collect()).unwrap_or_default() };
+    let pred_of = |x: &str| -> Vec<String> { pred_map.get(x).map(|s| s.iter().cloned().collect()).unwrap_or_default() };
     for x in &universe {
         let present = has(x);
         // all edges touching x
@@ -483,6 +492,18 @@ impl Prop for C02Prop {
         let mut rng = Rng::new(seed, "config");
         let specs = Specs::from_index(idx as usize % 96);
         let mut case = Case::new("C02", seed, specs);
+        {
+            let mut hr = Rng::new(seed, "config.huge");
+            if hr.chance(1, 3000) {
+                // a graph of thousands of edges (strategy thresholds), then a short tail
+                let regime = gen::regime_any(&mut hr, true);
+                let mut wr = Rng::new(seed, "workload.huge");
+                case.ops = gen::gen_huge_history(&mut wr, specs, regime, false);
+                case.params.put("source", crate::core::json::J::s("history loading thousands of edges"));
+                case.envs = vec![Env { keying: if hr.chance(1, 2) { 0 } else { seed | 1 }, pool: if hr.chance(1, 8) { 1 } else { 2 + hr.below(15) }, sched: crate::core::rng::mix(seed, 78) }];
+                return case;
+            }
+        }
         let o = gen::HistOpts { specs, max_ops: 24, regime: gen::regime_any(&mut rng, true), derived: rng.chance(1, 3), restart: true, names_min: 3, names_max: 6, dup_bias: 30, big: rng.chance(1, 500) };
         let mut wr = Rng::new(seed, "workload");
         case.ops = gen::gen_history(&mut wr, &o);
@@ -507,7 +528,7 @@ impl Prop for C02Prop {
     }
     fn cross(&self, _case: &Case, _results: &[EnvResult], _cx: &mut Ctx) {}
     fn rule(&self) -> String {
-        "lifecycle histories (<= 24 ops, incl. derived-graph operations in 1/3 of the runs) stratified over all 96 GraphSpecs, under 2 hash keyings; after EVERY op every read API is queried for every ordered pair of the name universe plus two absent names, every node, random node sets, both adjacency maps, BFS, and compared with the answer derived from the node list and edge multiset; with the hook the 12 private indexes are compared with each other. distinct_nontrivial = distinct (specs, history) whose final graph has edges and either parallel edges or a name order different from the insertion order".into()
+        "lifecycle histories (<= 24 ops, incl. derived-graph operations in 1/3 of the runs) stratified over all 96 GraphSpecs, under 2 hash keyings; after EVERY op every read API is queried for every ordered pair of the name universe plus two absent names, every node, random node sets, both adjacency maps, BFS, and compared with the answer derived from the node list and edge multiset; with the hook the 12 private indexes are compared with each other. distinct_nontrivial = distinct (specs, history) whose final graph has edges and either parallel edges or a name order different from the insertion order; one case in 3000 loads 2 100 - 12 500 edges (one to three batches or the constructor, same edge values re-submitted on multi-edge graphs) into 45-180 nodes and continues with a short tail (strategy thresholds); on universes of more than 80 names 600 ordered pairs per step are sampled (both orientations of stored edges and random pairs) instead of all pairs".into()
     }
     fn assumptions(&self) -> Vec<String> {
         vec![
